@@ -1,5 +1,5 @@
 SPECIFICATION Spec
-CONSTANTS Wirings = {"plain", "tunnel"} Kinds = {"basic", "cache", "tunnel"} MaxTasks = 2 MaxCaches = 1 MaxSocks = 1 MaxBoot = 1
+CONSTANTS Wirings = {"plain", "tunnel"} Kinds = {"basic", "cache", "tunnel"} MaxTasks = 2 MaxCaches = 1 MaxSocks = 1 MaxBoot = 1 MaxTry = 1 MaxXTask = 1 StoreAtOpen = TRUE
           InitAwaited = TRUE UnloadRemovesPending = TRUE
           WrapperForwardsRemove = FALSE CryptoListenerRemoved = TRUE RemovalAwaited = TRUE
 INVARIANT TypeOK
